@@ -5,6 +5,8 @@ import VlsModel.Gen.FnDerive
 import VlsModel.Gen.FnDeriveKeys
 import VlsModel.Gen.FnKeysMgr
 import VlsModel.Gen.FnDeriveLdk
+import VlsModel.Gen.FnChannelKeys
+import VlsModel.Gen.FnKeysMgrAux
 import VlsModel.Gen.FnChannel
 import VlsModel.Lemmas.FnGen
 /-
@@ -768,5 +770,100 @@ theorem C18_fn_ldk_channel_keys {Ctx : Type} (child : Bytes → Net → Nat → 
     · simp [Rs.assert, hle, ldkChanKeysFn, hge, Rs.panic]
 
 end DeriveLdk
+
+
+/-! ## channel.rs (round 9): the key-related bodies of the stub and the ids (`Gen/FnChannelKeys.lean`,
+`translate/fn_targets/ChannelKeys.b1819.json`): `ChannelStub::channel_keys_with_channel_value` (the "re-derivation at
+setup" of the anchor list), the stub's `get_per_commitment_point`, `Channel::id`, `ChannelSlot::id`.  `InMemorySigner` is
+declared with the six secret fields the code reads; its methods are externals. -/
+section ChannelKeys
+open VlsModel.Gen.FnChannelKeys
+
+/-- **C18_fn_setup_copies_stub_keys.** `ChannelStub::channel_keys_with_channel_value(value)` — the "re-derivation at setup"
+    of the property's anchor list (channel.rs:468) — derives nothing: the new signer is `InMemorySigner::new` of the stub
+    signer's own six secrets (in `new`'s argument order), its commitment seed and its `channel_keys_id()`, with the new
+    value.  Read through any recorder of what `new` receives, the key material is that of the stub and does not depend on
+    the value (`x_keys.py`: `setupCopiesStubKeys`, `channelValueReachesKeys = false`, here from the generated body). -/
+theorem C18_fn_setup_copies_stub_keys {SK Ctx : Type} (ctx : Ctx) (kid rnd : InMemorySigner SK → List Nat)
+    (new : Ctx → SK → SK → SK → SK → SK → List Nat → Nat → List Nat → List Nat → InMemorySigner SK)
+    (stub : ChannelStub SK Ctx) (v v' : Nat) :
+    ChannelStub.channel_keys_with_channel_value ctx kid rnd new stub v
+      = new ctx stub.keys.funding_key stub.keys.revocation_base_key stub.keys.payment_key
+          stub.keys.delayed_payment_base_key stub.keys.htlc_base_key stub.keys.commitment_seed v (kid stub.keys)
+          (rnd stub.keys) ∧
+    (∀ (rec : Ctx → SK → SK → SK → SK → SK → List Nat → Nat → List Nat → List Nat → InMemorySigner SK),
+      (∀ c f r p d h cs x k e x' e', rec c f r p d h cs x k e = rec c f r p d h cs x' k e') →
+      ChannelStub.channel_keys_with_channel_value ctx kid rnd rec stub v
+        = ChannelStub.channel_keys_with_channel_value ctx kid rnd rec stub v') ∧
+    Gen.KeyDeriveUse.setupCopiesStubKeys = true ∧ Gen.KeyDeriveUse.channelValueReachesKeys = false := by
+  refine ⟨rfl, ?_, by decide, by decide⟩
+  intro rec hrec
+  simp only [ChannelStub.channel_keys_with_channel_value]
+  exact hrec _ _ _ _ _ _ _ _ _ _ _ _
+
+/-- **C18_fn_stub_point_guard.** the stub's `get_per_commitment_point(n)`: allowed exactly for `n ≤ 1` (the model's
+    `pointAllowed` of a channel that is not ready), and then it is the signer's point at
+    `INITIAL_COMMITMENT_NUMBER - n`; otherwise the policy error.  (`![0, 1].contains(&n)` is expanded to the two
+    comparisons by the declared rule `stub_point_guard`.) -/
+theorem C18_fn_stub_point_guard {SK Ctx PK : Type} (ext : InMemorySigner SK → Nat → Ctx → Option PK)
+    (stub : ChannelStub SK Ctx) (c : Chan) (hr : c.ready = false) (n : Nat) :
+    ChannelStub.get_per_commitment_point ext stub n
+      = if pointAllowed c n then Rs.unwrap (ext stub.keys (INITIAL_COMMITMENT_NUMBER - n) stub.secp_ctx)
+        else .error (.err "policy-optional-fail-fast") := by
+  simp only [ChannelStub.get_per_commitment_point, pointAllowed, hr]
+  by_cases h0 : n = 0
+  · subst h0; simp [Rs.usub, INITIAL_COMMITMENT_NUMBER]
+  · by_cases h1 : n = 1
+    · subst h1; simp [Rs.usub, INITIAL_COMMITMENT_NUMBER]
+    · have : ¬ n ≤ 1 := by omega
+      simp [h0, h1, this, Rs.fail]
+
+/-- **C18_fn_channel_id.** the id a slot reports (`ChannelSlot::id`, what the persister stores the channel under and what
+    `new_from_persistence` hands to `get_channel_keys_with_id`) is always `id0`; `Channel::id()` is the permanent id when
+    one was assigned.  They differ as soon as `setup_channel` assigned another id: re-deriving from `Channel::id()` would
+    change the keys (seeded change C18-r6-1). -/
+theorem C18_fn_channel_id {SK Ctx : Type} (s : ChannelStub SK Ctx) (c : Channel) :
+    ChannelSlot.id (.Stub s : ChannelSlot SK Ctx) = s.id0 ∧ ChannelSlot.id (.Ready c : ChannelSlot SK Ctx) = c.id0 ∧
+    Channel.id_fn c = c.id.getD c.id0 ∧
+    (∃ c' : Channel, Channel.id_fn c' ≠ ChannelSlot.id (.Ready c' : ChannelSlot SK Ctx)) :=
+  ⟨rfl, rfl, rfl, ⟨⟨[1], some [2]⟩, by simp [Channel.id_fn, ChannelSlot.id]⟩⟩
+
+end ChannelKeys
+
+
+/-! ## my_keys_manager.rs (round 9), the rest that is inside the subset (`Gen/FnKeysMgrAux.lean`): the getters, the other
+keys the manager hands out, `per_commitment_point`, and the two LDK `SignerProvider` entry points that are `unimplemented!` -/
+section KeysMgrAux
+open VlsModel.Gen.FnKeysMgrAux
+
+/-- **C18_fn_no_signer_provider_path.** LDK's own way to a channel signer — `SignerProvider::generate_channel_keys_id` and
+    `derive_channel_signer` — is `unimplemented!()` in `MyKeysManager`: both panic on every input, so the only derivation
+    entry points are `get_channel_keys_with_id` / `get_channel_keys_with_keys_id` / `derive_channel_keys` (whose call
+    sites `x_keys.py` counts). -/
+theorem C18_fn_no_signer_provider_path {SK Ctx EK Sg : Type} (m : MyKeysManager SK EK Ctx) (b : Bool) (v u : Nat) (kid : List Nat) :
+    MyKeysManager.generate_channel_keys_id m b v u = .error .panic ∧
+    (MyKeysManager.derive_channel_signer m v kid : Rs.M Sg) = .error .panic := ⟨rfl, rfl⟩
+
+/-- **C18_fn_per_commitment_point.** a per-commitment point is the secp256k1 image of the per-commitment secret and of
+    nothing else: `from_secret_key(ctx, from_slice(secret).unwrap())` (the clause "points are the images of the secrets";
+    secp256k1 itself is the external) -/
+theorem C18_fn_per_commitment_point {Ctx PK SK : Type} (fs : List Nat → Option SK) (pub : Ctx → SK → PK) (ctx : Ctx)
+    (secret : List Nat) :
+    MyKeysManager.per_commitment_point fs pub ctx secret = (do let k ← Rs.unwrap (fs secret); pure (pub ctx k)) := rfl
+
+/-- **C18_fn_manager_getters.** the other secrets the manager hands out are stored fields or images of stored fields; none
+    of them reads a counter or a channel key -/
+theorem C18_fn_manager_getters {SK Ctx EK PK SS H : Type} (pub : Ctx → SK → PK) (ssNew : PK → SK → SS) (ssBytes : SS → List Nat)
+    (hash : List Nat → H) (tba : H → List Nat) (m : MyKeysManager SK EK Ctx) (server : PK) :
+    MyKeysManager.get_node_secret m = m.node_secret ∧
+    MyKeysManager.get_account_extended_key m = m.account_extended_key ∧
+    MyKeysManager.get_inbound_payment_key m = m.inbound_payment_key ∧
+    MyKeysManager.get_bolt12_pubkey pub m = pub m.secp_ctx m.bolt12_secret ∧
+    MyKeysManager.get_persistence_pubkey pub m = pub m.secp_ctx m.persistence_secret ∧
+    MyKeysManager.get_persistence_shared_secret ssNew ssBytes m server = ssBytes (ssNew server m.persistence_secret) ∧
+    MyKeysManager.get_persistence_auth_token ssNew ssBytes hash tba m server
+      = tba (hash (ssBytes (ssNew server m.persistence_secret))) := ⟨rfl, rfl, rfl, rfl, rfl, rfl, rfl⟩
+
+end KeysMgrAux
 
 end VlsModel.Props.C18Fn
